@@ -276,6 +276,21 @@ impl FixtureDatabase {
         false
     }
 
+    /// Whether a file lives in a `site-packages` directory.
+    /// For files inside the workspace only the part of the path below the workspace root is
+    /// inspected, so the location of the workspace itself (e.g. under a directory whose name
+    /// contains "site-packages") does not change the classification of its own fixtures.
+    pub(crate) fn is_in_site_packages(&self, file_path: &Path) -> bool {
+        let workspace = self.workspace_root.lock().unwrap();
+        let relative_to_workspace = workspace
+            .as_ref()
+            .and_then(|ws| file_path.strip_prefix(ws).ok())
+            .unwrap_or(file_path);
+        relative_to_workspace
+            .to_string_lossy()
+            .contains("site-packages")
+    }
+
     /// Remove all cached data for a file.
     /// Called when a file is closed or deleted to prevent unbounded memory growth.
     pub fn cleanup_file_cache(&self, file_path: &Path) {
